@@ -48,20 +48,21 @@ type Will struct {
 
 // Sess is the model of one client connection / session.
 type Sess struct {
-	K         *Client
-	Node      *Node
-	MP        string
-	ClientID  string
-	KeepAlive uint16
-	Will      *Will
-	Connected bool            // CONNECT was sent
-	Alive     bool            // model: session established and not ended
-	EndCause  string          // why the model thinks it ended ("" while alive)
-	Subs      map[string]byte // active filters (as the client wrote them)
-	Expect    map[string]int  // expected PUBLISH multiset: key(topic,payload,retain) -> count
-	SessionID string
-	Deadline  time.Duration // model of the keep-alive allowance (virtual time)
-	nextPID   uint16
+	K          *Client
+	Node       *Node
+	MP         string
+	ClientID   string
+	KeepAlive  uint16
+	Will       *Will
+	Connected  bool            // CONNECT was sent
+	Alive      bool            // model: session established and not ended
+	EndCause   string          // why the model thinks it ended ("" while alive)
+	Subs       map[string]byte // active filters (as the client wrote them)
+	Expect     map[string]int  // expected PUBLISH multiset: key(topic,payload,retain) -> count
+	SessionID  string
+	Deadline   time.Duration // model of the keep-alive allowance (virtual time)
+	nextPID    uint16
+	connectSeq int
 	// Displaced: a newer session took over the client id; this one may still be served
 	// until its next keep-alive exchange, so deliveries to it are not judged.
 	Displaced bool
@@ -72,6 +73,7 @@ type World struct {
 	Cl       *Cluster
 	S        []*Sess
 	Retained map[string]map[string]string // mount point -> topic -> payload
+	connects int
 	// Deaf: mount points whose delivery expectations are switched off (used by checks that
 	// only look at part of the picture).
 	notes []string
@@ -157,7 +159,15 @@ func (w *World) endSession(s *Sess, cause string) {
 	s.Alive = false
 	s.EndCause = cause
 	s.Subs = map[string]byte{}
-	if s.Will != nil && cause != "disconnect" && cause != "displaced" {
+	// a session whose client id resolves to another live session has been taken over: the
+	// broker ends it without publishing its will
+	takenOver := false
+	for _, o := range w.S {
+		if o != s && o.Alive && o.connectSeq > s.connectSeq && o.ClientID == s.ClientID && w.mp(o) == w.mp(s) {
+			takenOver = true
+		}
+	}
+	if s.Will != nil && cause != "disconnect" && cause != "displaced" && !takenOver {
 		w.modelPublish(w.mp(s), s.Will.Topic, s.Will.Payload, s.Will.Retain, s.Node)
 	}
 }
@@ -188,6 +198,8 @@ func (w *World) Apply(st Step) (problem string, inconclusive bool) {
 		}
 		s.Node, s.MP, s.ClientID, s.KeepAlive, s.Will = n, st.MP, st.ClientID, st.KeepAlive, st.Will
 		s.Connected = true
+		w.connects++
+		s.connectSeq = w.connects
 		o := ConnectOpts{ClientID: st.ClientID, KeepAlive: st.KeepAlive, Username: st.MP}
 		if st.Will != nil {
 			o.WillTopic, o.WillPayload, o.WillQoS, o.WillRetain = st.Will.Topic, st.Will.Payload, st.Will.QoS, st.Will.Retain
@@ -476,9 +488,20 @@ func (w *World) CheckState() string {
 		for _, m := range n.State.SessionMetadatas().All() {
 			listed[m.SessionID] = m.Peer
 		}
+		lingering := map[string]bool{}
+		for _, s := range w.S {
+			if s.Displaced && s.Alive && s.SessionID != "" {
+				// taken over but not yet at its next keep-alive exchange: C12 allows it to linger,
+				// its record is gone already while its subscriptions go when it is torn down
+				lingering[s.SessionID] = true
+			}
+		}
 		subsOf := map[string][]string{}
 		for _, sub := range n.State.Subscriptions().All() {
 			subsOf[sub.SessionID] = append(subsOf[sub.SessionID], string(sub.Pattern))
+			if lingering[sub.SessionID] {
+				continue
+			}
 			peer, ok := listed[sub.SessionID]
 			if !ok {
 				return fmt.Sprintf("node %s lists subscription %q of session %s, which is not a listed session", n.Name, sub.Pattern, sub.SessionID)
@@ -491,8 +514,8 @@ func (w *World) CheckState() string {
 			}
 		}
 		for i, s := range w.S {
-			if !s.Connected || s.SessionID == "" || s.Displaced {
-				continue
+			if !s.Connected || s.SessionID == "" || (s.Displaced && s.Alive) {
+				continue // a displaced session may linger until its next keep-alive exchange
 			}
 			_, isListed := listed[s.SessionID]
 			switch {
